@@ -269,6 +269,25 @@ impl<'a> St<'a> {
             self.r.panic(dn, Opts::DEFAULT, &line, ans.clone());
         }
         if k == "ok" {
+            // C01 on the real code, inside the fragment: does the printed text parse back to the same trees?
+            let opts = ParserOptions::new().with_trailing_commas(tc);
+            if let G::Val(Ok(stmts)) = guard(|| Parser::new(d).with_options(opts.clone()).with_recursion_limit(limit).with_tokens(toks.to_vec()).parse_statements()) {
+                let text = stmts.iter().map(|s| s.to_string()).collect::<Vec<_>>().join("; ");
+                let back = guard(|| Parser::new(d).with_options(opts.clone()).with_recursion_limit(limit.max(50)).try_with_sql(&text).and_then(|mut p| p.parse_statements()));
+                let verdict = match back {
+                    G::Val(Ok(again)) if again == stmts => "same",
+                    G::Val(Ok(_)) => "different-tree",
+                    G::Val(Err(_)) => "rejected",
+                    G::Panic(_) => "panic",
+                };
+                self.r.count(&format!("reparse/{verdict}"));
+                if verdict != "same" {
+                    let n = self.r.dist.keys().filter(|k| k.starts_with("reparse.example/")).count();
+                    if n < 12 {
+                        self.r.count(&format!("reparse.example/{dn}/{verdict}/{}", trunc(&text, 160)));
+                    }
+                }
+            }
             for h in ["(select ", "(paren ", "(setop ", "(join ", "(derived ", "(as ", "(star)", "(qstar", "(ob ", "(using", "(on "] {
                 let c = ans.matches(h).count() as u64;
                 if c > 0 {
